@@ -338,6 +338,19 @@ func runC20(r *core.Run) {
 				}
 			}
 		}
+		// luminances far from 1, all four alike and the white alone (the generated matrix scales with
+		// the white's luminance; nothing may be flushed, clamped or taken for singular on the way)
+		for _, ysc := range []float32{1e-9, 1e-6, 1e-4, 1e4, 1e9} {
+			for _, yy4 := range [][4]float32{{ysc, ysc, ysc, ysc}, {1, 1, 1, ysc}, {ysc, ysc * 2, ysc / 2, 1}} {
+				kind, msg, _ := c20TriangleYY(sp.XY, yy4)
+				r.AddEvals(1)
+				r.NT(fmt.Sprintf("pubyyscale/%s/%v", sp.Name, yy4))
+				if kind != "" {
+					y := yy4
+					r.Violate("triangle", kind+"/luminance-scale", sp.Name+": "+msg, c20Case{Kind: kind, XY: sp.XY, YY: &y})
+				}
+			}
+		}
 		yy := [4]float32{float32(rgp.Uniform(0.05, 1)), float32(rgp.Uniform(0.05, 1)), float32(rgp.Uniform(0.05, 1)), 1}
 		if rgp.Intn(3) == 0 {
 			yy[3] = float32(rgp.Uniform(0.5, 1.5))
@@ -414,6 +427,7 @@ func runC20(r *core.Run) {
 		r.AddEvals(k)
 		r.NTCount(k)
 	})
+	var zeroProd []matrix.Matrix3
 	// a few structured matrices: identity, permutations, diagonal, the library's own sRGB matrix
 	structured := []matrix.Matrix3{
 		{{1, 0, 0}, {0, 1, 0}, {0, 0, 1}}, {{0, 1, 0}, {0, 0, 1}, {1, 0, 0}}, {{2, 0, 0}, {0, -3, 0}, {0, 0, 0.5}},
@@ -442,6 +456,22 @@ func runC20(r *core.Run) {
 			matrix.Matrix3{{eps, 1, 0}, {0, eps, 1}, {1, 0, -eps}},
 			matrix.Matrix3{{-1 - eps, 0, 0}, {0, -1, eps}, {0, 0, -1 + eps}})
 	}
+	// zero rows and columns in every position (singular, but products are defined)
+	for z := 0; z < 3; z++ {
+		var zc, zr matrix.Matrix3
+		for c := 0; c < 3; c++ {
+			for rw := 0; rw < 3; rw++ {
+				v := float64(1 + c*3 + rw)
+				if c != z {
+					zc[c][rw] = v
+				}
+				if rw != z {
+					zr[c][rw] = v
+				}
+			}
+		}
+		zeroProd = append(zeroProd, zc, zr)
+	}
 	for _, sc := range []float64{1e-8, 1e-3, 1e3, 1e8} {
 		structured = append(structured, matrix.Matrix3{{sc, 2 * sc, 3 * sc}, {0, sc, 4 * sc}, {5 * sc, 6 * sc, 0}}, matrix.Matrix3{{sc, 0, 0}, {0, sc, 0}, {0, 0, sc}})
 	}
@@ -453,6 +483,39 @@ func runC20(r *core.Run) {
 			}
 		}
 		structured = append(structured, neg)
+	}
+	for _, z := range zeroProd {
+		for _, o := range []matrix.Matrix3{{{1, 2, 3}, {4, 5, 6}, {7, 8, 10}}, z} {
+			for _, pr := range [][2]matrix.Matrix3{{z, o}, {o, z}} {
+				got, want := libMat(pr[0].MulM(pr[1])), libMat(pr[0]).Mul(libMat(pr[1]))
+				r.AddEvals(1)
+				if d := got.MaxAbsDiff(want); !(d <= 1e-12*matNormProd(libMat(pr[0]), libMat(pr[1]))) {
+					a, b := pr[0], pr[1]
+					r.Violate("algebra", "mulm/zero-row-or-column", fmt.Sprintf("%v.MulM(%v) differs from the matrix product by %.3g", a, b, d), c20Case{Kind: "mulm", M: &a, O: &b})
+				}
+			}
+		}
+		v := matrix.Vector3{1, -2, 3}
+		gv, wv := z.MulV(v), libMat(z).MulV(refcolor.Vec{1, -2, 3})
+		for i := 0; i < 3; i++ {
+			if !(math.Abs(gv[i]-wv[i]) <= 1e-12*50) {
+				zz := z
+				r.Violate("algebra", "mulv/zero-row-or-column", fmt.Sprintf("%v.MulV(%v) = %v, want %v", z, v, gv, wv), c20Case{Kind: "mulv", M: &zz})
+				break
+			}
+		}
+	}
+	// vectors with exact zeros in every position through MulV
+	for _, v := range []matrix.Vector3{{0, 1, 0}, {0.25, 0, 0.75}, {0, 0, 1}, {1, 0, 0}, {0, 0, 0}, {0, 2, 3}} {
+		m := matrix.Matrix3{{1, 2, 3}, {4, 5, 6}, {7, 8, 10}}
+		gv, wv := m.MulV(v), libMat(m).MulV(refcolor.Vec{v[0], v[1], v[2]})
+		r.AddEvals(1)
+		for i := 0; i < 3; i++ {
+			if !(math.Abs(gv[i]-wv[i]) <= 1e-12*50) {
+				r.Violate("algebra", "mulv/zero-component", fmt.Sprintf("%v.MulV(%v) = %v, want %v", m, v, gv, wv), c20Case{Kind: "mulv", M: &m})
+				break
+			}
+		}
 	}
 	for _, m := range structured {
 		if kind, msg := c20Algebra(m, matrix.Matrix3{{1, 2, 3}, {4, 5, 6}, {7, 8, 10}}, matrix.Vector3{1, -2, 3}); kind != "" {
